@@ -75,6 +75,9 @@ func effectfulCallSites(g *ssa.Function) map[string][]*ssa.Call {
 		if id == "dyn" {
 			return
 		}
+		if sc := cl.Call.StaticCallee(); sc != nil && isErrorConstructor(sc) {
+			return // building an error is not a step that has a place in an order
+		}
 		if strings.HasPrefix(id, "B:") {
 			if id != "B:close" && id != "B:delete" && id != "B:copy" {
 				return
@@ -259,8 +262,9 @@ func genOrderReference(repo string) error {
 					sites := effectfulCallSites(g)
 					cnt := map[string]int{}
 					for _, pr := range ps {
-						a := strings.SplitN(pr, " < ", 2)[0]
-						cnt[a] = len(sites[a])
+						ab := strings.SplitN(pr, " < ", 2)
+						cnt[ab[0]] = len(sites[ab[0]])
+						cnt[ab[1]] = len(sites[ab[1]])
 					}
 					ref.Counts[FuncName(g)] = cnt
 				}
@@ -323,6 +327,9 @@ func runOrderDrift(c *Ctx, pkgs []string) {
 					}
 					if len(as) < orderRefCache.Counts[fk][ab[0]] {
 						continue // some occurrences of the first step left the function (moved into a helper): not judged
+					}
+					if n, knownN := orderRefCache.Counts[fk][ab[1]]; knownN && len(bs) > n {
+						continue // the second step is made in more places than before (a clean-up added on another path): the new places have nothing to be compared with
 					}
 					if mustPrecede(as, bs) {
 						c.Pass(fk, "order "+short(ab[0])+" < "+short(ab[1]), c.Pos(bs[0].Pos()), "still only reached after it")
